@@ -524,12 +524,127 @@ def special_models():
         go.node.append(helper.make_node("Add", ["scaled", "k"], ["y"], name="use_constant"))
         go.output.append(_vi("y", TP.FLOAT, (2,)))
         out.append((f"overridable_initializer_and_identical_constant[{order[0]}_first]", helper.make_model(go, opset_imports=[helper.make_opsetid("", OPSET)], ir_version=10)))
+    out.extend(corner_models())
     g2 = onnx.GraphProto(name="main")
     g2.input.extend([_vi("x"), _vi("c", TP.BOOL, ())])
     g2.node.append(helper.make_node("Identity", ["x"], ["y"], name="id"))
     g2.node.append(helper.make_node("Identity", ["y"], ["z"], name="id2"))
     g2.output.extend([_vi("y", TP.FLOAT, (2,)), _vi("z", TP.FLOAT, (2,))])
     out.append(("identity_chain_between_input_and_outputs", helper.make_model(g2, opset_imports=[helper.make_opsetid("", OPSET)], ir_version=10)))
+    return out
+
+
+def _model(g, fns=(), extra_opsets=()):
+    return helper.make_model(g, opset_imports=[helper.make_opsetid("", OPSET)] + list(extra_opsets), ir_version=10, functions=list(fns))
+
+
+def corner_models():
+    """Valid models around corners of single passes: constants that differ only in the sign of zero, attribute kinds
+    a pass has to hash or copy (TYPE_PROTO, non-ASCII strings), names that meet only after a pass has moved
+    something across a scope boundary, a duplicate that is returned at two positions."""
+    out = []
+    # constants equal under == but not bitwise: x / (+0.0) and x / (-0.0) differ
+    for form in ("value_float", "value_floats", "value", "initializer"):
+        g = onnx.GraphProto(name="main")
+        g.input.extend([_vi("x"), _vi("c", TP.BOOL, ())])
+        for nm, z in (("zp", 0.0), ("zn", -0.0)):
+            if form == "value_float":
+                g.node.append(helper.make_node("Constant", [], [nm], name=f"k_{nm}", value_float=z))
+            elif form == "value_floats":
+                g.node.append(helper.make_node("Constant", [], [nm], name=f"k_{nm}", value_floats=[z, z]))
+            elif form == "value":
+                g.node.append(helper.make_node("Constant", [], [nm], name=f"k_{nm}", value=onnx.numpy_helper.from_array(np.array([z, z], dtype=np.float32), "")))
+            else:
+                g.initializer.append(onnx.numpy_helper.from_array(np.array([z, z], dtype=np.float32), nm))
+        g.node.append(helper.make_node("Div", ["x", "zp"], ["dp"], name="div_p"))
+        g.node.append(helper.make_node("Div", ["x", "zn"], ["dn"], name="div_n"))
+        g.output.extend([_vi("dp", TP.FLOAT, (2,)), _vi("dn", TP.FLOAT, (2,))])
+        out.append((f"signed_zero_constants[{form}]", _model(g)))
+    # a duplicate node whose output is returned at two graph-output positions
+    g = onnx.GraphProto(name="main")
+    g.input.extend([_vi("x"), _vi("c", TP.BOOL, ())])
+    g.node.append(helper.make_node("Neg", ["x"], ["a"], name="neg_a"))
+    g.node.append(helper.make_node("Neg", ["x"], ["b"], name="neg_b"))
+    g.node.append(helper.make_node("Relu", ["a"], ["ra"], name="use_a"))
+    g.output.extend([_vi("ra", TP.FLOAT, (2,)), _vi("b", TP.FLOAT, (2,)), _vi("b", TP.FLOAT, (2,))])
+    out.append(("duplicate_returned_at_two_positions", _model(g)))
+    # OutputFix has to invent names: the names it would pick are already taken
+    g = onnx.GraphProto(name="main")
+    g.input.extend([_vi("x"), _vi("c", TP.BOOL, ())])
+    g.node.append(helper.make_node("Neg", ["x"], ["x_alias_0"], name="n0"))
+    g.node.append(helper.make_node("Abs", ["x"], ["x_alias_1"], name="n1"))
+    g.node.append(helper.make_node("Relu", ["x"], ["x_orig"], name="n2"))
+    g.output.extend([_vi("x", TP.FLOAT, (2,)), _vi("x", TP.FLOAT, (2,)), _vi("x_alias_0", TP.FLOAT, (2,)), _vi("x_alias_1", TP.FLOAT, (2,)), _vi("x_orig", TP.FLOAT, (2,))])
+    out.append(("input_returned_twice_next_to_alias_names", _model(g)))
+    g = onnx.GraphProto(name="main")
+    g.input.extend([_vi("x"), _vi("c", TP.BOOL, ())])
+    g.node.append(helper.make_node("Neg", ["x"], ["y"], name="n0"))
+    g.node.append(helper.make_node("Abs", ["x"], ["y_alias_1"], name="n1"))
+    g.node.append(helper.make_node("Relu", ["y"], ["y_orig"], name="n2"))
+    g.output.extend([_vi("y", TP.FLOAT, (2,)), _vi("y", TP.FLOAT, (2,)), _vi("y_alias_1", TP.FLOAT, (2,)), _vi("y_orig", TP.FLOAT, (2,))])
+    out.append(("value_returned_twice_next_to_alias_names", _model(g)))
+    # an initializer of one branch and a node output (or a different initializer) of the sibling branch share a name
+    for sibling in ("node_output", "other_initializer", "main_later_node"):
+        g = onnx.GraphProto(name="main")
+        g.input.extend([_vi("x"), _vi("c", TP.BOOL, ())])
+        tb = onnx.GraphProto(name="tb")
+        tb.initializer.append(_const_tensor("w", [1.0, 2.0]))
+        tb.node.append(helper.make_node("Add", ["x", "w"], ["t_o"], name="t_add"))
+        tb.output.append(_vi("t_o", TP.FLOAT, None))
+        eb = onnx.GraphProto(name="eb")
+        if sibling == "node_output":
+            eb.node.append(helper.make_node("Neg", ["x"], ["w"], name="e_neg"))
+            eb.node.append(helper.make_node("Relu", ["w"], ["e_o"], name="e_relu"))
+        elif sibling == "other_initializer":
+            eb.initializer.append(_const_tensor("w", [5.0, -7.0]))
+            eb.node.append(helper.make_node("Mul", ["x", "w"], ["e_o"], name="e_mul"))
+        else:
+            eb.node.append(helper.make_node("Abs", ["x"], ["e_o"], name="e_abs"))
+        eb.output.append(_vi("e_o", TP.FLOAT, None))
+        g.node.append(helper.make_node("If", ["c"], ["r"], name="if_w", then_branch=tb, else_branch=eb))
+        if sibling == "main_later_node":
+            g.node.append(helper.make_node("Neg", ["r"], ["w"], name="late_w"))
+            g.output.append(_vi("w", TP.FLOAT, (2,)))
+        else:
+            g.output.append(_vi("r", TP.FLOAT, (2,)))
+        out.append((f"branch_initializer_name_meets_sibling[{sibling}]", _model(g)))
+    # a function's internal name is also used inside a branch of a LATER node of the caller
+    for inner_name in ("st", "so"):
+        g = onnx.GraphProto(name="main")
+        g.input.extend([_vi("x"), _vi("c", TP.BOOL, ())])
+        f = helper.make_function("local", "Chain", ["sx"], ["so"], [helper.make_node("Neg", ["sx"], ["st"], name="f_neg"), helper.make_node("Relu", ["st"], ["so"], name="f_relu")], [helper.make_opsetid("", OPSET)])
+        g.node.append(helper.make_node("Chain", ["x"], ["called"], name="call_chain", domain="local"))
+        tb = onnx.GraphProto(name="tb")
+        tb.node.append(helper.make_node("Abs", ["x"], [inner_name], name="t_abs"))
+        tb.node.append(helper.make_node("Add", [inner_name, "called"], ["t_o"], name="t_add"))
+        tb.output.append(_vi("t_o", TP.FLOAT, None))
+        eb = onnx.GraphProto(name="eb")
+        eb.node.append(helper.make_node("Identity", ["called"], ["e_o"], name="e_id"))
+        eb.output.append(_vi("e_o", TP.FLOAT, None))
+        g.node.append(helper.make_node("If", ["c"], ["r"], name="if_later", then_branch=tb, else_branch=eb))
+        g.output.append(_vi("r", TP.FLOAT, (2,)))
+        out.append((f"function_internal_name_used_in_later_branch[{inner_name}]", _model(g, [f], [helper.make_opsetid("local", 1)])))
+    # attribute kinds a pass must be able to compare, hash and copy
+    tp = helper.make_tensor_type_proto(TP.FLOAT, [2])
+    g = onnx.GraphProto(name="main")
+    g.input.extend([_vi("x"), _vi("c", TP.BOOL, ())])
+    for k in ("a", "b"):
+        n = helper.make_node("Typed", ["x"], [f"ty_{k}"], name=f"typed_{k}", domain="custom.corner")
+        n.attribute.append(helper.make_attribute("ty", tp))
+        n.attribute.append(helper.make_attribute("tys", [tp, tp]))
+        g.node.append(n)
+    g.output.extend([_vi("ty_a", TP.FLOAT, (2,)), _vi("ty_b", TP.FLOAT, (2,))])
+    out.append(("noeval:type_proto_attributes_on_identical_nodes", _model(g, extra_opsets=[helper.make_opsetid("custom.corner", 1)])))
+    for text in ("caf\u00e9", "\u65e5\u672c"):
+        g = onnx.GraphProto(name="main")
+        g.input.extend([_vi("x"), _vi("c", TP.BOOL, ())])
+        g.node.append(helper.make_node("Constant", [], ["s"], name="k_s", value_string=text))
+        g.node.append(helper.make_node("Constant", [], ["ss"], name="k_ss", value_strings=[text, "plain"]))
+        g.node.append(helper.make_node("Neg", ["x"], ["y"], name="neg"))
+        g.node.append(helper.make_node("Identity", ["s"], ["s_o"], name="id_s"))
+        g.node.append(helper.make_node("Identity", ["ss"], ["ss_o"], name="id_ss"))
+        g.output.extend([_vi("y", TP.FLOAT, (2,)), _vi("s_o", TP.STRING, ()), _vi("ss_o", TP.STRING, (2,))])
+        out.append((f"noeval:non_ascii_string_constant[{text.encode('unicode_escape').decode()}]", _model(g)))
     return out
 
 
